@@ -1,0 +1,37 @@
+//go:build verif
+
+package server
+
+import (
+	"time"
+)
+
+// This file is compiled only with `-tags verif`. It gives the verification harness in /verif
+// access to a few unexported pieces; it adds nothing to the normal build.
+
+// VerifSessionExpireCheck runs one pass of the session-expiry loop body.
+func (srv *server) VerifSessionExpireCheck() { srv.sessionExpireCheck() }
+
+// VerifBackdate simulates the passage of d for a stored session: the session's ConnectedAt and, when the
+// client is offline, its expiry deadline are moved d into the past.
+func (srv *server) VerifBackdate(clientID string, d time.Duration) bool {
+	srv.mu.Lock()
+	defer srv.mu.Unlock()
+	sess, err := srv.sessionStore.Get(clientID)
+	if err != nil || sess == nil {
+		return false
+	}
+	sess.ConnectedAt = sess.ConnectedAt.Add(-d)
+	_ = srv.sessionStore.Set(sess)
+	if t, ok := srv.offlineClients[clientID]; ok {
+		srv.offlineClients[clientID] = t.Add(-d)
+	}
+	return true
+}
+
+// VerifCounts returns the sizes of the broker's client tables.
+func (srv *server) VerifCounts() (online, offline, wills, queues, unacks int) {
+	srv.mu.Lock()
+	defer srv.mu.Unlock()
+	return len(srv.clients), len(srv.offlineClients), len(srv.willMessage), len(srv.queueStore), len(srv.unackStore)
+}
